@@ -743,6 +743,14 @@ def run(chk, replay=None):
     for k, v in gres.items():
         if v is not None:
             C.log("translator %s: %s" % (k, v))
+    try:
+        once = gen.parse_cli_split(C.REPO)
+    except Exception as e:
+        once = None
+    chk.cov["cli_split_once"] = once
+    chk.cov["theorems_applying_to_this_tree"] = {
+        "cli_value_whole": once is True, "cli_value_truncated_refuted": once is False,
+        "cli_value_whole_outside_class": True, "cli_option_panics_iff_no_equals": True}
 
     # 2. the proof against the regenerated tables
     a = chk.proof()
